@@ -303,19 +303,32 @@ fn finish<K: Kern<D>, U: DataVal, const D: usize>(case: &Case, entry_name: &str,
             if b.dt.topology_guarantee() != b.effective.guarantee() {
                 log.violate(Violation::new(ID, "guarantee_not_applied", entry_name, format!("requested {:?}, triangulation reports {:?}", b.effective.guarantee(), b.dt.topology_guarantee())));
             }
-            let lib_validate_ok = if problems.is_empty() { true } else { b.dt.validate().is_ok() };
-            for (kind, detail, facts) in problems {
-                let mut v = Violation::new(ID, &kind, "construct", format!("Ok result of {entry_name} ({} kernel, D={D}, {}): {detail}", K::NAME, b.effective.label()))
-                    .fact("dim", D as u64)
-                    .fact("kernel", K::NAME)
-                    .fact("entry", entry_name)
-                    .fact("retry", (b.effective.retry % 6) as u64)
-                    .fact("lib_validate_ok", lib_validate_ok)
-                    .fact("guarantee", (b.effective.guarantee % 3) as u64);
-                for (k, val) in facts {
-                    v = v.fact(k, val);
+            let lib_validate = if problems.is_empty() { Ok(()) } else { b.dt.validate().map_err(|e| e.to_string()) };
+            if let Err(err) = &lib_validate {
+                // root cause: the constructor returned Ok for something the library's own cumulative
+                // validator rejects; the individual problems below are consequences of that
+                let first = problems.first().map(|p| format!("{}: {}", p.0, p.1)).unwrap_or_default();
+                log.violate(
+                    Violation::new(ID, "ok_result_fails_own_validate", "construct", format!("Ok result of {entry_name} ({} kernel, D={D}, {}) is rejected by dt.validate(): {err}; independent oracle: {first}", K::NAME, b.effective.label()))
+                        .fact("dim", D as u64)
+                        .fact("kernel", K::NAME)
+                        .fact("entry", entry_name)
+                        .fact("retry", (b.effective.retry % 6) as u64)
+                        .fact("guarantee", (b.effective.guarantee % 3) as u64),
+                );
+            } else {
+                for (kind, detail, facts) in problems {
+                    let mut v = Violation::new(ID, &kind, "construct", format!("Ok result of {entry_name} ({} kernel, D={D}, {}): {detail}", K::NAME, b.effective.label()))
+                        .fact("dim", D as u64)
+                        .fact("kernel", K::NAME)
+                        .fact("entry", entry_name)
+                        .fact("retry", (b.effective.retry % 6) as u64)
+                        .fact("guarantee", (b.effective.guarantee % 3) as u64);
+                    for (k, val) in facts {
+                        v = v.fact(k, val);
+                    }
+                    log.violate(v);
                 }
-                log.violate(v);
             }
             if snap.verts.len() >= D + 2 {
                 let mut bits: Vec<Vec<u64>> = case.points.pts.iter().map(|p| p.iter().map(|x| x.to_bits()).collect()).collect();
